@@ -128,8 +128,10 @@ pub fn build(rng: &mut Rng, kind: &'static str, pos: usize, nhealthy: usize, sma
             // healthy streams produce items and (usually) end
             for k in c.calls.iter().filter(|k| k.kind == Kind::Sub) {
                 let mut s = Vec::new();
-                for n in 0..rng.below(3) {
-                    s.push(Ev::Item { client, seq: k.seq, n: n as u32, continues: Some(true) });
+                let ni = rng.below(4);
+                let fin = rng.chance(1, 3);
+                for n in 0..ni {
+                    s.push(Ev::Item { client, seq: k.seq, n: n as u32, continues: if fin && n + 1 == ni { Some(false) } else { Some(true) } });
                 }
                 if rng.chance(4, 5) {
                     s.push(Ev::Close { client, seq: k.seq });
@@ -219,7 +221,13 @@ pub fn build(rng: &mut Rng, kind: &'static str, pos: usize, nhealthy: usize, sma
                 c.cuts = random_cuts(rng, raw.len(), 2);
                 c.raw = Some(raw);
                 chain.extend((0..c.chunks(client).len()).map(|_| Ev::Deliver(i)));
-                let mut s: Vec<Ev> = (0..nitems).map(|n| Ev::Item { client, seq: 60, n: n as u32, continues: Some(true) }).collect();
+                // the last item may be marked final by the service (continues: false) - and may be the one whose write fails
+                let final_marked = rng.chance(1, 2);
+                if kind == "write-error-on-stream-item" && final_marked && rng.chance(2, 3) {
+                    let answered = v.iter().filter(|k| !k.oneway && k.kind != Kind::Sub).count();
+                    c.fail_write_at = Some(answered + nitems - 1);
+                }
+                let mut s: Vec<Ev> = (0..nitems).map(|n| Ev::Item { client, seq: 60, n: n as u32, continues: if final_marked && n + 1 == nitems { Some(false) } else { Some(true) } }).collect();
                 if rng.chance(2, 3) {
                     s.push(Ev::Close { client, seq: 60 });
                 }
